@@ -116,6 +116,7 @@ def handle (ws : List String) : String :=
   | ["tree", src, dump] => handleTree src dump
   | ["junk", _, _] => "total total -"
   | "early" :: rest => Early.handle rest
+  | "early2" :: rest => Early.handle2 rest
   | _ => "bad-op bad-op -"
 
 end OttoVerif.C04.Driver
